@@ -88,11 +88,12 @@ uint64_t exec_op(int op, int a, int b, uint64_t tag, const SharedPlans& sp) {
         if (sp.all.empty()) return 0;
         const auto& ref = sp.all[size_t(a) % sp.all.size()];
         switch (ref.type) {
-        case 0: return hbits(sp.c[size_t(ref.idx)]->solve(cin(ref.n, tag + uint64_t(b))));
-        case 1: return hbits(sp.r[size_t(ref.idx)]->solve(rin(ref.n, tag + uint64_t(b))));
-        case 2: return hbits(sp.ic[size_t(ref.idx)]->solve(cin(ref.n, tag + uint64_t(b))));
-        case 3: return hbits(sp.ir[size_t(ref.idx)]->solve(cin(ref.n / 2 + 1, tag + uint64_t(b))));
-        default: return hbits(sp.z[size_t(ref.idx)]->solve(cin(ref.n, tag + uint64_t(b))));
+        // both call forms of a plan object: solve() and operator()
+        case 0: return (b & 1) ? hbits((*sp.c[size_t(ref.idx)])(cin(ref.n, tag + uint64_t(b)))) : hbits(sp.c[size_t(ref.idx)]->solve(cin(ref.n, tag + uint64_t(b))));
+        case 1: return (b & 1) ? hbits((*sp.r[size_t(ref.idx)])(rin(ref.n, tag + uint64_t(b)))) : hbits(sp.r[size_t(ref.idx)]->solve(rin(ref.n, tag + uint64_t(b))));
+        case 2: return (b & 1) ? hbits((*sp.ic[size_t(ref.idx)])(cin(ref.n, tag + uint64_t(b)))) : hbits(sp.ic[size_t(ref.idx)]->solve(cin(ref.n, tag + uint64_t(b))));
+        case 3: return (b & 1) ? hbits((*sp.ir[size_t(ref.idx)])(cin(ref.n / 2 + 1, tag + uint64_t(b)))) : hbits(sp.ir[size_t(ref.idx)]->solve(cin((b & 2) ? ref.n : ref.n / 2 + 1, tag + uint64_t(b))));
+        default: return (b & 1) ? hbits((*sp.z[size_t(ref.idx)])(cin(ref.n, tag + uint64_t(b)))) : hbits(sp.z[size_t(ref.idx)]->solve(cin(ref.n, tag + uint64_t(b))));
         }
     }
     }
